@@ -150,4 +150,41 @@ def collidingModules (refs : List Ref) : List String :=
 /-- `Service.names`: the service and client names, the snake-cased method names, the colliding module names -/
 def serviceNames (own methods : List String) (refs : List Ref) : List String := own ++ methods ++ collidingModules refs
 
+/-! ### `Address.python_import` against `Address.__str__`: the name an import binds and the name references use -/
+
+/-- the four branches of `Address.python_import`: a python wrapper type (no `api_naming`), a type of the API being generated, a type of a
+dependency declared proto-plus (`proto-plus-deps`, `is_proto_plus_type`), any other dependency (`<module>_pb2`) -/
+inductive ImportKind where
+  | python | own | plusDep | pb2
+  deriving DecidableEq, Repr
+
+/-- `imp.Import(package, module, alias)`; `alias = ""` is "no alias" -/
+structure PyImport where
+  module : String
+  alias : String
+  deriving DecidableEq, Repr
+
+/-- `Address.python_import`: the first three branches pass `alias=self.module_alias`, the `_pb2` branch passes none.
+(`alias` = `Address.module_alias`, "" when the module is in no collision.) -/
+def pythonImport (k : ImportKind) (module alias : String) : PyImport :=
+  match k with
+  | .python => ⟨module, alias⟩
+  | .own => ⟨module, alias⟩
+  | .plusDep => ⟨module, alias⟩
+  | .pb2 => ⟨module ++ "_pb2", ""⟩
+
+/-- `from <package> import <module> [as <alias>]` binds the alias when there is one -/
+def PyImport.bound (i : PyImport) : String := if i.alias = "" then i.module else i.alias
+
+/-- `Address.is_proto_plus_type` per branch (a python wrapper type counts: its package starts with the empty `proto_package`) -/
+def isProtoPlus : ImportKind → Bool
+  | .pb2 => false
+  | _ => true
+
+/-- `Address.__str__`, the module part: the module, replaced by the alias when there is one, replaced by `<module>_pb2` when the type is
+not a proto-plus type -/
+def referenceModule (k : ImportKind) (module alias : String) : String :=
+  let name := if alias = "" then module else alias
+  if isProtoPlus k then name else module ++ "_pb2"
+
 end GapicModel.Model.Names
